@@ -13,20 +13,20 @@ import tracer_replay as T
 
 def run(rep, tier, seed):
     q = tier == "quick"
-    mr = 2500 if q else None
+    mr = 1000 if q else None
     configs = [
-        dict(name="core_fwd", maxinstr=3, maxhist=2, ops="OpsRec", points="PtsP1", seeds="NoSeeds", rec_kinds=("U", "A"), max_replay=mr),
-        dict(name="toggle", maxinstr=3, maxhist=1, ops="OpsToggle", points="PtsP1small", seeds="NoSeeds", rec_kinds=("U", "A"), max_replay=mr),
-        dict(name="other_while_recording", maxinstr=3, maxhist=1, ops="OpsOtherRec", points="PtsP1small", seeds="NoSeeds", rec_kinds=("U", "A"), max_replay=mr),
-        dict(name="views", maxinstr=3, maxhist=2, ops="OpsA4", points="PtsP1small", seeds="NoSeeds", rec_kinds=("U", "A"), max_replay=mr),
+        dict(name="core_fwd", maxinstr=3, maxhist=2, ops="OpsRec", points="PtsP1", seeds="NoSeeds", rec_kinds=("U", "A", "V"), max_replay=mr),
+        dict(name="toggle", maxinstr=3, maxhist=1, ops="OpsToggle", points="PtsP1small", seeds="NoSeeds", rec_kinds=("U", "A", "V"), max_replay=mr),
+        dict(name="other_while_recording", maxinstr=3, maxhist=1, ops="OpsOtherRec", points="PtsP1small", seeds="NoSeeds", rec_kinds=("U", "A", "V"), max_replay=mr),
+        dict(name="views", maxinstr=3, maxhist=2, ops="OpsA4", points="PtsP1small", seeds="NoSeeds", rec_kinds=("U", "A", "V"), max_replay=mr),
         dict(name="P2", P=2, maxinstr=2, maxhist=2, ops="OpsCore", points="PtsP2", seeds="NoSeeds", max_replay=mr),
     ]
     if not q:
         configs += [
-            dict(name="arith1", maxinstr=3, maxhist=2, ops="OpsA1", points="PtsP1small", seeds="NoSeeds", rec_kinds=("U", "A")),
-            dict(name="arith2", maxinstr=3, maxhist=2, ops="OpsA2", points="PtsP1small", seeds="NoSeeds", rec_kinds=("U", "A")),
-            dict(name="arith3", maxinstr=3, maxhist=2, ops="OpsA3", points="PtsP1small", seeds="NoSeeds", rec_kinds=("U", "A")),
-            dict(name="core_len4", maxinstr=4, maxhist=1, ops="OpsCore", points="PtsP1small", seeds="NoSeeds", rec_kinds=("U", "A"), max_replay=20000),
+            dict(name="arith1", maxinstr=3, maxhist=2, ops="OpsA1", points="PtsP1small", seeds="NoSeeds", rec_kinds=("U", "A", "V")),
+            dict(name="arith2", maxinstr=3, maxhist=2, ops="OpsA2", points="PtsP1small", seeds="NoSeeds", rec_kinds=("U", "A", "V")),
+            dict(name="arith3", maxinstr=3, maxhist=2, ops="OpsA3", points="PtsP1small", seeds="NoSeeds", rec_kinds=("U", "A", "V")),
+            dict(name="core_len4", maxinstr=4, maxhist=1, ops="OpsCore", points="PtsP1small", seeds="NoSeeds", rec_kinds=("U", "A", "V"), max_replay=20000),
         ]
     T.tracer_check(rep, configs, "C05")
     T.full_api_replays(rep, seed, n=48 if q else 400)
